@@ -251,11 +251,11 @@ def run(ctx):
                   "_copy_subtree_for_help copies the hidden flag only under %s: other hidden subcommands appear in the output of the `help` subcommand" % bg)
     # ---------------- R12.5 the ordered map that collects a section cannot merge two arguments: its key is made of attributes the validity gate keeps unique
     osk = fx.body("clap_builder::output::help_template::option_sort_key")
-    used = sorted(set(c.callee_q.rsplit("::", 1)[1] for c in osk.calls() if c.callee_q and c.callee_q.startswith("clap_builder::builder::arg::Arg::") and not sp_macro(c.sp)))
+    used = sorted(set(c.callee_q.rsplit("::", 1)[1] for t_ in tree(osk) for c in t_.calls() if c.callee_q and c.callee_q.startswith("clap_builder::builder::arg::Arg::") and not sp_macro(c.sp)))
     res.check(set(used) <= {"get_display_order", "get_id", "get_long", "get_short"} and "get_id" in used, "R12.5", "sort-key-unique", osk.where(), "sort key built from short / long / id (unique per command) + display order",
               "option_sort_key builds the key from %s: two visible arguments can get the same key and one of them is silently dropped from the section" % used)
     psk = fx.body("clap_builder::output::help_template::positional_sort_key")
-    usedp = sorted(set(c.callee_q.rsplit("::", 1)[1] for c in psk.calls() if c.callee_q and c.callee_q.startswith("clap_builder::builder::arg::Arg::")))
+    usedp = sorted(set(c.callee_q.rsplit("::", 1)[1] for t_ in tree(psk) for c in t_.calls() if c.callee_q and c.callee_q.startswith("clap_builder::builder::arg::Arg::")))
     res.check(usedp == ["get_index"], "R12.5", "positional-key-unique", psk.where(), "positional key = index (unique)", "positional_sort_key builds the key from %s" % usedp)
     for c in wa.calls_to(r"BTreeMap::insert$"):
         k = expr(wa, c.args[1])
